@@ -16,11 +16,12 @@ def run(tier):
         "name) is the declaration owning the storage cell the reference interpreter reads or writes under Python's scoping rules "
         "(parameter, local, enclosing function, module; global/nonlocal)",
         "Python, single file; family F-scope: shadowing by parameter/local/inner function, closures (1 and 2 levels), global and "
-        "nonlocal writes, sibling locals, names used only in a branch, methods reading globals / shadowing them by parameters",
+        "nonlocal writes, sibling locals, names used only in a branch, methods reading globals / shadowing them by parameters; "
+        "generated: a name assigned in every non-empty subset of {module, f, inner, inner-inner} and read at every level where visible",
         "the renaming clause of the property is a relation between runs (not addressed); class attributes are judged as fields",
     ]
     r.outside += ["JavaScript let/const/var", "multi-file imports (not in this round)", "the X-kernel on scope forests of the design"]
-    fam = progs.family_scope()
+    fam = progs.family_scope() + progs.family_scope_generated()
     wit = progs.scope_witnesses()
     tcommon.drive(r, fam + wit, len(fam), "check_scope", "check_scope_reach", "every executed occurrence is bound to the right declaration",
                   "semantic", TABLES, tier, chunk=4)
@@ -28,4 +29,4 @@ def run(tier):
 
 
 def replay(rec):
-    return tcommon.replay_program(rec, "check_scope", "semantic", TABLES, progs.family_scope() + progs.scope_witnesses())
+    return tcommon.replay_program(rec, "check_scope", "semantic", TABLES, progs.family_scope() + progs.family_scope_generated() + progs.scope_witnesses())
